@@ -80,6 +80,15 @@ def solve_text(text, timeout=10, order=("z3", "cvc5"), both=False):
     if final is not None:
         final.tried = tried
         return final
+    # undecided: retry z3 with other random seeds (same budget) before giving up - verdicts must not flip on
+    # incidental search order
+    if "z3" in order:
+        for seed in (7, 23):
+            cmd = [Z3_BIN, f"-T:{int(timeout)}", f"-memory:{MEM_MB}", f"smt.random_seed={seed}", f"sat.random_seed={seed}", "-in"]
+            st, out, secs = run_solver(cmd, text, timeout)
+            tried.append((f"z3/seed{seed}", st, round(secs, 3)))
+            if st in ("sat", "unsat"):
+                return Result(st, "z3", secs, parse_model(out) if st == "sat" else None, out[:4000], tried)
     return Result("unknown", "-", sum(x[2] for x in tried), None, "", tried)
 
 
